@@ -5,6 +5,7 @@ import (
 	"context"
 	"fmt"
 	"regexp"
+	"runtime/debug"
 	"sort"
 	"strings"
 	"testing"
@@ -56,12 +57,17 @@ var (
 )
 
 const (
-	openLen    = 3 // the first decision point enumerates every enabled opening of up to this many actions (shard balance)
+	openLen    = 4 // the first decision point enumerates every enabled opening of up to this many actions (shard balance)
 	drainMax   = 10
 	knownTag   = "crash-between-batch-taken-and-first-block-save"
 	refusalTag = "queue-full-refusal"
 )
 
+// Known finding (classified NARROWLY, from the write-log position of the crash, never from the outcome): a crash
+// inside a production step after the sequencer's queue record was deleted (del(/batches/...), possibly followed by
+// the batch-cursor put /m/l) and before the first block save of that step. Only the transactions of THAT batch are
+// explained by it (tag knownTag on a separate violation); any other missing transaction of the same history is
+// reported without the tag, and every other clause stays armed.
 var queueSizes = []int{1, 2}
 
 // the bubble's clock starts at 2000-01-01T00:00:00Z and never advances; genesis lies one hour before it
@@ -120,7 +126,8 @@ type opening struct {
 
 // openings enumerates, per queue size, every enabled action sequence of length 0..openLen; within the first
 // openLen actions tx a cannot have been executed yet (inject, reap, a production step for the genesis block and one
-// more for the batch are needed), so the static flags are exact; the real run cross-checks this.
+// more for the batch are needed: a can be absent from the mempool again after the 4th action at the earliest), so the
+// static flags are exact; the real run cross-checks this.
 // Sorted by length so that the long (expensive) ones are dealt out evenly over process shards.
 var openings = func() []opening {
 	var out []opening
@@ -263,11 +270,11 @@ func bubble(c *explore.Ctx, depth int) (out outcome) {
 		n        *world.Node
 		reaper   *block.Reaper
 		armed    = true
-		at       = -1       // index of the current action (-1 = first boot)
-		curKind  = "boot"   // what the process is doing: boot | reap | produce
-		done     []world.Write // durable writes completed by the current activity of the current process
-		lastDel  [][]byte      // transactions of the queue record most recently deleted in `done`
-		crashPos []string      // positions of the injected crashes
+		at       = -1                // index of the current action (-1 = first boot)
+		curKind  = "boot"            // what the process is doing: boot | reap | produce
+		done     []world.Write       // durable writes completed by the current activity of the current process
+		lastDel  [][]byte            // transactions of the queue record most recently deleted in `done`
+		crashPos []string            // positions of the injected crashes
 		doomed   = map[string]bool{} // transactions of batches taken (queue record deleted) whose first block save did not happen before a crash
 		sawKnown bool
 	)
@@ -444,7 +451,6 @@ func bubble(c *explore.Ctx, depth int) (out outcome) {
 	// well-formed drain: (reap, produce) rounds without crashes until a round in which nothing is handed off, the
 	// block is empty and the queue holds no record
 	armed = false
-	drainStart := len(out.trace)
 	quiescent := false
 	rounds := 0
 	for rounds < drainMax && !quiescent {
@@ -461,13 +467,12 @@ func bubble(c *explore.Ctx, depth int) (out outcome) {
 		}
 		quiescent = len(rec.handoffs) == h0 && len(rec.released) == r0 && n.Height() > height0 && len(n.KV.Keys("/batches/")) == 0
 	}
-	_ = drainStart
 
 	// ------------------------------------------------------------------------------------------------ oracle
 	var tags []string
 	tags = append(tags, crashPos...)
 	if sawKnown {
-		tags = append(tags, "has-"+knownTag)
+		tags = append(tags, "note:a-crash-at-the-known-position-occurred")
 	}
 	for _, h := range rec.handoffs {
 		if h.Refused {
@@ -633,11 +638,18 @@ type replay struct {
 
 func TestCheck(t *testing.T) {
 	r := vf.Start("C11", "fault_enumeration")
+	debug.SetGCPercent(600) // short-lived executions allocate a lot (10 000-slot channels per manager); memory is plentiful
 	if r.RunShards(16) {
 		return
 	}
-	depth := vf.Pick(r, 6, 8)
-	budgets := vf.Pick(r, map[string]int{"crash": 1}, map[string]int{"crash": 2})
+	// quick: depth 6 with at most one crash. thorough: depth 8 with at most one crash AND depth 7 with at most two
+	// (depth 8 with two crashes is ~16 million executions, beyond the thorough budget).
+	type phase struct {
+		Depth    int           `json:"depth"`
+		Crash    int           `json:"crash"`
+		Deadline time.Duration `json:"-"`
+	}
+	phases := vf.Pick(r, []phase{{6, 1, 150 * time.Second}}, []phase{{8, 1, 8 * time.Minute}, {7, 2, 17 * time.Minute}})
 	r.Assume = []string{
 		"crash model: the process (manager + reaper + sequencer, one datastore) dies between two durable datastore writes (a put, a delete, one batch commit are atomic units); nothing in memory survives; the mempool/executor is external and survives",
 		"mempool double: contract-conforming (GetTxs does not drain, ExecuteTxs removes executed transactions) and holding at most one entry per byte string at a time (identical bytes are injected again only after execution removed them)",
@@ -665,50 +677,60 @@ func TestCheck(t *testing.T) {
 		r.Finish(vf.Coverage{Evaluations: 1, DistinctNontrivial: 1})
 		return
 	}
-	var withRefusal, withCrash, crashFree int64
-	var cnt = make(chan [3]int64, 1)
-	cnt <- [3]int64{}
-	st := explore.Explore(explore.Config{Budgets: budgets, Deadline: vf.Pick(r, 150*time.Second, 25*time.Minute)}, func(c *explore.Ctx) {
-		o := body(t, c, depth)
-		if o.eng != "" {
-			r.EngineError(o.eng + " | " + strings.Join(o.trace, " ; "))
-			return
-		}
-		v := <-cnt
-		if o.refuse > 0 {
-			v[0]++
-		}
-		if o.crashs > 0 {
-			v[1]++
-		} else {
-			v[2]++
-		}
-		cnt <- v
-		for _, vi := range o.viols {
-			r.Report(vf.Violation{Clause: vi.clause, Tags: vi.tags, Msg: vi.msg + "\n history: " + strings.Join(o.trace, " ; "), Cost: c.Cost() + o.nActs, History: replay{depth, c.Choices()}})
-			r.Outcome("fail:" + vi.clause)
-		}
-		if len(o.viols) == 0 {
-			r.Outcome(o.sig)
-			if o.crashs > 0 && o.refuse > 0 && o.nActs >= 5 {
-				r.Sample(map[string]any{"queue_size": o.qsize, "history": o.trace, "signature": o.sig})
-			}
-		}
-	})
-	v := <-cnt
-	withRefusal, withCrash, crashFree = v[0], v[1], v[2]
-	for _, m := range st.Nondet {
-		r.EngineError("nondeterminism: " + m)
-	}
+	// counters (guarded by a one-slot channel)
+	type counters struct{ refusal, crash, crashFree, knownPos int64 }
+	cnt := make(chan counters, 1)
+	cnt <- counters{}
+	var total explore.Stats
 	var caps []string
-	if st.Capped != "" {
-		caps = append(caps, st.Capped)
+	for _, ph := range phases {
+		st := explore.Explore(explore.Config{Budgets: map[string]int{"crash": ph.Crash}, Deadline: ph.Deadline}, func(c *explore.Ctx) {
+			o := body(t, c, ph.Depth)
+			if o.eng != "" {
+				r.EngineError(o.eng + " | " + strings.Join(o.trace, " ; "))
+				return
+			}
+			v := <-cnt
+			if o.refuse > 0 {
+				v.refusal++
+			}
+			if o.crashs > 0 {
+				v.crash++
+			} else {
+				v.crashFree++
+			}
+			cnt <- v
+			for _, vi := range o.viols {
+				r.Report(vf.Violation{Clause: vi.clause, Tags: vi.tags, Msg: vi.msg + "\n history: " + strings.Join(o.trace, " ; "), Cost: c.Cost() + o.nActs, History: replay{ph.Depth, c.Choices()}})
+				r.Outcome("fail:" + vi.clause)
+			}
+			if len(o.viols) == 0 {
+				r.Outcome(o.sig)
+				if o.crashs > 0 && o.refuse > 0 && o.nActs >= 5 {
+					r.Sample(map[string]any{"queue_size": o.qsize, "history": o.trace, "signature": o.sig})
+				}
+			}
+		})
+		total.Executions += st.Executions
+		total.Points += st.Points
+		if st.MaxDepth > total.MaxDepth {
+			total.MaxDepth = st.MaxDepth
+		}
+		for _, m := range st.Nondet {
+			r.EngineError("nondeterminism: " + m)
+		}
+		if st.Capped != "" {
+			caps = append(caps, fmt.Sprintf("depth %d, crashes %d: %s", ph.Depth, ph.Crash, st.Capped))
+		}
 	}
+	v := <-cnt
 	r.Finish(vf.Coverage{
-		Evaluations: st.Executions, DistinctNontrivial: int64(r.DistinctOutcomes()), States: st.Executions, Transitions: st.Points,
-		Rule:       "for each queue size, every enabled action history of length 0..depth over {inject a, inject b, inject a again (same bytes, once execution removed it), reap = Reaper.SubmitTxs, produce = one publishBlock step, clean restart = new reaper + sequencer + manager on the same image} × every subset of at most `crash` crash points among ALL durable writes of the explored actions and of the reboots (crash before the write, then reboot of all three components on the exact image), each followed by a crash-free drain of reap+produce rounds to quiescence and the four oracle clauses + world.CheckChain; executed from scratch on the real Reaper, single.Sequencer and Manager; distinct = distinct (queue size, chain contents, refusals, releases, crash positions) signatures",
+		// States = crash-free action histories executed (summed over the process shards; every shard runs the empty history)
+		Evaluations: total.Executions, DistinctNontrivial: int64(r.DistinctOutcomes()), States: v.crashFree, Transitions: total.Points,
+		Rule:       "for each (depth, crash) phase and each queue size: every enabled action history of length 0..depth over {inject a, inject b, inject a again (same bytes, once execution removed it), reap = Reaper.SubmitTxs, produce = one publishBlock step, clean restart = new reaper + sequencer + manager on the same image} × every subset of at most `crash` crash points among ALL durable writes of the explored actions and of the reboots (crash before the write, then reboot of all three components on the exact image), each followed by a crash-free drain of reap+produce rounds to quiescence, the four oracle clauses and world.CheckChain; executed from scratch on the real Reaper, single.Sequencer and Manager in a synctest bubble; states = crash-free action histories; distinct = distinct (queue size, chain contents, refusals, releases, crash positions) signatures",
 		Exhaustive: true, Caps: caps,
-		Bounds:     map[string]any{"depth": depth, "budgets": budgets, "queue_sizes": queueSizes, "openings": len(openings), "max_decision_points": st.MaxDepth},
-		Extra:      map[string]any{"histories_with_queue_full_refusal": withRefusal, "histories_with_crash": withCrash, "crash_free_histories": crashFree},
+		Bounds: map[string]any{"phases": phases, "queue_sizes": queueSizes, "openings": len(openings), "max_decision_points": total.MaxDepth},
+		// RunShards keeps the Extra of the first shard only: these three are per-shard figures (1/16 of the exploration)
+		Extra: map[string]any{"first_shard_histories_with_queue_full_refusal": v.refusal, "first_shard_histories_with_crash": v.crash, "first_shard_crash_free_histories": v.crashFree},
 	})
 }
